@@ -52,7 +52,7 @@ SPEC_BUILTINS = {
     "clsid", "clsof", "isinst", "uf", "exact_class", "qn_str", "qn_uri", "map_dom_eq",
     "const_set", "const_map_keys", "table_get", "table_has", "field_array", "is_other",
     "seq_len", "seq_nth", "seq_empty", "seq_unit", "seq_concat", "flt_of_int", "same", "hash_str", "tbl", "canon_in", "vs_has", "vs_n", "vs_in", "vs_wf", "vs_first", "vs_rep", "ck", "qm_has", "qm_get", "qm_key", "pair", "hash_of", "vs_add", "vs_empty", "seq_has", "attr_set", "canon_set", "rkey", "rec_keys", "set_has", "uri_in", "recs_with_id", "recs_of_class", "allocated", "table_key", "seq_member_index_lemma", "is_formal", "fresh", "seq_snoc_lemma", "os_has", "os_n", "os_rep", "entry",
-    "jobj", "jplain", "is_jobj", "j_dollar", "j_plain", "j_type", "j_lang",
+    "jobj", "jplain", "is_jobj", "j_dollar", "j_plain", "j_type", "j_lang", "fs_get",
 }
 
 
@@ -411,7 +411,7 @@ class Exec(Sem):
             if self.feasible(st, rest):
                 ctl.exc(st.assume(rest).step("aX"), ExcVal("AttributeError", node=node))
             return None
-        if ty.kind in ("map", "set", "seq", "str", "DT", "Flt", "int", "bool", "none", "vset", "qmap", "oset"):
+        if ty.kind in ("map", "set", "seq", "str", "DT", "Flt", "int", "bool", "none", "vset", "qmap", "oset", "handle"):
             return k(st, PyV("valmethod", attr, o))
         raise Unsupported("attribute %s of %r" % (attr, ty), node)
 
@@ -921,6 +921,19 @@ class Exec(Sem):
         return k(st, SV("(forall ((%s %s)) (=> %s %s))" % (bn, S.sort(et), mem, body), T.BOOL))
 
     def call(self, f, args, kwargs, st, k, ctl, node):
+        if isinstance(f, SV) and f.ty == T.CLS and not st.spec:
+            # a class object computed at run time (e.g. looked up in a registry) is called: one case per class
+            # of the package that the path condition allows (they must share one __init__, as construct_choice requires)
+            from .calls import construct_choice
+            items = []
+            for cname, cid in sorted(self.cx.class_ids.items()):
+                ci = self.repo.classes.get(cname)
+                cond = "(= %s %d)" % (f.t, cid)
+                if ci is not None and self.feasible(st, cond):
+                    items.append((cond, ci))
+            if not items:
+                raise Unsupported("call of a class object that can be no class of the package", node)
+            return construct_choice(self, items, args, kwargs, st.assume(OR(*[c_ for c_, _ in items])), k, ctl, node)
         if isinstance(f, PyV):
             kind = f.kind
             if kind == "func":
